@@ -97,6 +97,17 @@ class Parser:
                     depth -= 1
                     if depth == 0: break
         k, v = self.peek()
+        if v == "fn" and self.peek(1)[0] == "id":                # a nested fn item: skipped here, translated as its own target
+            self.next(); name = self.next()[1]
+            depth = 0
+            while True:
+                tk = self.next()
+                if tk[0] == "eof": raise Untranslatable("unterminated nested fn")
+                if tk[1] == "{": depth += 1
+                if tk[1] == "}":
+                    depth -= 1
+                    if depth == 0: break
+            return ("nested_fn", name)
         if v == "const" and self.peek(1)[0] == "id" and self.peek(2) == ("op", ":"):      # a local constant is a let
             self.next(); name = self.next()[1]; self.expect(":"); ty = self.type_()
             self.expect("="); e = self.expr(); self.expect(";")
@@ -602,6 +613,14 @@ class Gen:
                 v_ = self.fresh("f")
                 return "match %s with None => None | Some %s =>\n  %s end" % (a, v_, k(v_, ta[1]))
             return self.expr(e[1], kuw)
+        if kind == "call" and e[2] == "unwrap" and not e[3] and e[1][0] == "fncall" and e[1][1] in ("core::str::from_utf8", "std::str::from_utf8", "str::from_utf8") and len(e[1][2]) == 1:
+            # from_utf8(bytes).unwrap(): rendered with the ASCII criterion (every byte < 0x80), which is exact on
+            # what the constructor can store and refuses (panic) anything else
+            def kfu(a, ta):
+                if not (isinstance(ta, tuple) and ta[0] == "arr"): raise Untranslatable("from_utf8 of %s" % (ta,))
+                v_ = self.fresh("t")
+                return "let %s := %s in\n  if forallb (fun b => b <? 128) %s then\n  %s else None" % (v_, a, v_, k(v_, "str"))
+            return self.expr(e[1][2][0], kfu)
         if kind == "fncall" and e[1] in ("String::with_capacity", "String::new") and len(e[2]) <= 1:
             return k("(@nil N)", "str")
         if kind == "call" and e[2] == "to_string" and not e[3]:
@@ -1071,6 +1090,8 @@ class Gen:
         if not ss:
             return final(None)
         s, rest = ss[0], ss[1:]
+        if s[0] == "nested_fn":
+            return self.stmts(rest, final)
         # ITER.for_each(|pat| { body });  is  for pat in ITER { body }
         if (s[0] in ("expr_stmt", "tail") and s[1][0] == "call" and s[1][2] == "for_each" and len(s[1][3]) == 1
                 and s[1][3][0][0] == "closure"):
